@@ -149,8 +149,14 @@ func (e *Enc) canInline(f *ssa.Function) bool {
 		return false
 	}
 	pkg := funcPkg(f)
-	if pkg == nil || !strings.HasPrefix(pkg.Path(), modPath) {
+	if pkg == nil {
 		return false
+	}
+	if !strings.HasPrefix(pkg.Path(), modPath) {
+		// generated protobuf getters of dependency packages (nil-safe field reads) are inlined too
+		if !(f.Signature.Recv() != nil && strings.HasPrefix(f.Name(), "Get") && len(f.Blocks) <= 4 && isGeneratedPB(f)) {
+			return false
+		}
 	}
 	if f.Recover != nil {
 		return false
@@ -169,6 +175,14 @@ func (e *Enc) canInline(f *ssa.Function) bool {
 		}
 	}
 	return true
+}
+
+// isGeneratedPB: f is declared in a protoc-gen-go generated file (*.pb.go).
+func isGeneratedPB(f *ssa.Function) bool {
+	if f.Prog == nil || !f.Pos().IsValid() {
+		return false
+	}
+	return strings.HasSuffix(f.Prog.Fset.Position(f.Pos()).Filename, ".pb.go")
 }
 
 func (e *Enc) inlineCall(fr *frame, st *bstate, callee *ssa.Function, args, bindings []Val, resType types.Type, pos token.Pos) Val {
